@@ -166,10 +166,16 @@ def check_c03(tier, seed):
     v = Verdict("C03", tier, seed)
     st = new_stage()
     merged = Merged()
-    lib = mkbuild("shipped").build(st)
+    libs = run_parallel([lambda n=n: mkbuild(n).build(st, jobs=5) for n in ("shipped", "w32", "be0")], workers=3)
+    lib = libs[0]
     m1 = run_dp(st, lib, ["h_dp.c"], "c03", tier, seed, merged, v)
     m2 = run_mc(st, lib, "h_par.c", "c03p", tier, seed, merged, v, nshards=NCPU)
     m3 = run_mc(st, lib, "h_sched.c", "c03s", tier, seed, merged, v, nshards=3)
+    for l in libs[1:]:   # the other word-size / byte-order code paths of the same functions
+        run_dp(st, l, ["h_dp.c"], "c03", tier, seed, merged, v, nshards=8)
+        run_mc(st, l, "h_par.c", "c03p", tier, seed, merged, v, nshards=8)
+        mx = run_mc(st, l, "h_sched.c", "c03s", tier, seed, merged, v, nshards=3)
+        m3.states += mx.states; m3.transitions += mx.transitions
     closed = all(val == 0 for k, val in merged.notes.items() if k.startswith("kinds_cut_by_depth_cap"))
     cov = mc_cov(merged,
                  "(ii) closure of the Mantis schedule under {set_key(2 keys x rounds 5..8 x 2 modes), set_tweak(Z,F,R1,R2,NULL), swap_modes, invalid tweak sizes} and of the "
@@ -177,7 +183,7 @@ def check_c03(tier, seed):
                  "set_key in the current mode + set_tweak(last), behaviour == specification in the current mode over a block family. "
                  "(i) D(E(x)) = x and E(D(y)) = y over the BG/BYTE/PAIR/BIT families through the single-block functions of all six SKINNY variants and Mantis-5..8 "
                  "(stored and per-call tweak), and through the parallel functions on every back end for block counts {1,P-1,P,P+1,2P+1} x 4 data families",
-                 {"builds": [lib.describe()], "closure_states": m3.states, "closure_transitions": m3.transitions,
+                 {"builds": [l.describe() for l in libs], "closure_states": m3.states, "closure_transitions": m3.transitions,
                   "roundtrip_evaluations_single_block": m1.evaluations, "roundtrip_evaluations_parallel": m2.evaluations,
                   "evaluations": merged.evaluations + merged.transitions, "distinct_nontrivial": merged.distinct})
     return v.finish("model_checking", cov, ["key/tweak values outside the alphabets are not covered"], exhaustive=closed)
@@ -266,14 +272,16 @@ def check_c07(tier, seed):
     v = Verdict("C07", tier, seed)
     st = new_stage()
     merged = Merged()
-    lib = mkbuild("shipped").build(st)
-    run_mc(st, lib, "h_par.c", "c07", tier, seed, merged, v, nshards=NCPU)
+    libs = run_parallel([lambda n=n: mkbuild(n).build(st, jobs=8) for n in ("shipped", "w32")], workers=2)
+    lib = libs[0]
+    for l in libs:      # the 32-bit-word build compiles different vector S-box code (sbox_two) in the 128-bit back end
+        run_mc(st, l, "h_par.c", "c07", tier, seed, merged, v, nshards=NCPU)
     cov = {"evaluations": merged.evaluations, "distinct_nontrivial": merged.distinct,
            "rule": "every block count 0..25 (3 x widest batch + 1) x {encrypt, decrypt} x data families with per-block distinct contents x "
                    "{in-place, out-of-place} x key configurations (Skinny: 2 keys x 3 sizes; Mantis: rounds x modes, independent tweak per block) "
                    "x every back end (pinned), compared with the single-block functions block by block; plus byte counts that are not whole blocks "
                    "(must return 0, output untouched) and the advertised parallel_size; non-trivial = output differs from input",
-           "samples": merged.samples, "builds": [lib.describe()]}
+           "samples": merged.samples, "builds": [l.describe() for l in libs]}
     return v.finish("exploration", cov,
                     ["single-block functions are tied to the specification by C01/C02", "block counts above 3P+1 are not run (loop structure argument, DESIGN.md 4/C07)"])
 
